@@ -6,6 +6,7 @@ Line-protocol driver for the store snapshotting model (component `snapsm`), C04.
   noop                          → ok
   snap <ok|notinvoked|failbefore|failafter>   → full | incremental | nothing | nowal | full-not-installed | incremental-not-installed
   snapbegin                     → full | incremental | nowal | busy          (FSM.Snapshot())
+  snapbeginfail                 → err-stage | full | nowal | busy            (FSM.Snapshot() failing to stage the checkpointed WAL)
   snapend <outcome>             → installed | not-installed | nopending | fatal-exit   (Persist + Close / Release;
                                   fatal-exit: Sink.Close exited the process, which was then restarted)
   load <content> / boot <content> / install <content>   → ok     content = ids comma-separated, `e` empty
@@ -60,6 +61,7 @@ def stepLine (d : DState) (line : String) : DState × String :=
       | some o => run lvl (.snapshot o)
       | none => (d, "bad-op")
     | "snapbegin", [] => run lvl .snapBegin
+    | "snapbeginfail", [] => run lvl .snapBeginStageFails
     | "snapend", [o] => match outcomeTok o with
       | some o => run lvl (.snapEnd o)
       | none => (d, "bad-op")
